@@ -867,6 +867,13 @@ pub fn run(args: &Args) -> i32 {
         for i in 0..60 {
             one_case(&r, args.seed, i, true);
         }
+        let udf = crate::c40udf::Udf::new();
+        let policy = crate::c40udf::probe_policy(&udf);
+        let before = r.n_violations();
+        for i in 0..5 {
+            crate::c40udf::one_case(&r, &udf, &policy, args.seed, i, true);
+        }
+        println!("SELFTEST C40 json udf: {} violation classes raised on corrupted UDF results", r.n_violations() - before);
         let n = r.n_violations();
         println!("SELFTEST C40 distinct violation classes raised on corrupted observations: {n} (expected >= 4: deep copy, list filter, take, json)");
         return if n >= 4 { 0 } else { 2 };
@@ -874,7 +881,7 @@ pub fn run(args: &Args) -> i32 {
     let report = Report::new(
         args,
         "exploration",
-        "Random record batches of 1-4 columns of random nested types (depth<=3 over struct / list / large list / fixed-size list / primitives / utf8 / bool) with nulls at every level, garbage behind null lists, list offsets not starting at 0 / not covering the child, every column sliced; checked helpers: deep_copy_array(_sliced), deep_copy_nulls, deep_copy_batch(_sliced), shrink_to_fit, take (random indices with repeats), project_by_schema (random nested sub-schema, reordered), merge and merge_with_schema (batch split into two halves that share struct ancestors, some columns on both sides), ListArrayExt::{trimmed_values, filter_garbage_nulls}, StructArrayExt::{pushdown_nulls, normalize_slicing (arrow-cpp style offset)}, JSON text -> JSONB -> text, JsonArray value / json_path / to_arrow_json vs serde_json. Non-trivial iff >1 row; distinct by (column type classes, log2 rows, sliced).",
+        "Random record batches of 1-4 columns of random nested types (depth<=3 over struct / list / large list / fixed-size list / primitives / utf8 / bool) with nulls at every level, garbage behind null lists, list offsets not starting at 0 / not covering the child, every column sliced; checked helpers: deep_copy_array(_sliced), deep_copy_nulls, deep_copy_batch(_sliced), shrink_to_fit, take (random indices with repeats), project_by_schema (random nested sub-schema, reordered), merge and merge_with_schema (batch split into two halves that share struct ancestors, some columns on both sides), ListArrayExt::{trimmed_values, filter_garbage_nulls}, StructArrayExt::{pushdown_nulls, normalize_slicing (arrow-cpp style offset)}, JSON text -> JSONB -> text, JsonArray value / json_path / to_arrow_json vs serde_json; the lance-datafusion JSON UDFs (json_get, json_get_string/int/float/bool, json_extract, json_exists, json_array_length, json_array_contains) evaluated through SQL in a DataFusion SessionContext over tables of random JSONB documents (keys from an alphabet with case variants name/Name/NAME, empty, unicode and numeric-looking keys at several nesting levels; key as column and as literal; requested keys: present, case variant of a present key, absent, array index) vs a serde_json model with exact case-sensitive keys, with the type-mismatch / null behaviour recorded first. Non-trivial iff >1 row; distinct by (column type classes, log2 rows, sliced).",
         (45, 600),
     )
     .with_min_nontrivial(200);
@@ -887,6 +894,32 @@ pub fn run(args: &Args) -> i32 {
         return report.finish();
     }
     let threads = crate::quiet::threads();
+    // ---- JSON UDF part (lance-datafusion/src/udf/json.rs): fixed share, own time slice ----
+    {
+        let probe = crate::c40udf::Udf::new();
+        let policy = crate::c40udf::probe_policy(&probe);
+        report.set("json_udf_policy_recorded_first", json!(policy));
+        let n_udf: u64 = args.tier.pick(1200, 60_000);
+        let slice_s = report.budget_s() as f64 * 0.4;
+        let next = AtomicU64::new(0);
+        std::thread::scope(|s| {
+            for _ in 0..threads {
+                s.spawn(|| {
+                    let udf = crate::c40udf::Udf::new();
+                    loop {
+                        let i = next.fetch_add(1, Ordering::Relaxed);
+                        if i >= n_udf || report.elapsed_s() > slice_s {
+                            break;
+                        }
+                        if let Err((m, l)) = crate::quiet::catch(|| crate::c40udf::one_case(&report, &udf, &policy, args.seed, i, false)) {
+                            report.harness_error(&format!("C40 json udf case {i}: unexpected panic at {l}: {m}"));
+                        }
+                        report.count("json_udf_cases", 1);
+                    }
+                });
+            }
+        });
+    }
     let n_cases: u64 = args.tier.pick(40_000, 2_000_000);
     let next = AtomicU64::new(0);
     std::thread::scope(|s| {
